@@ -36,7 +36,13 @@ func H_C14(tbl, router, stage int) {
 	verifAssume(len(strings.Trim(p, "/")) > 0)
 	verifAssume(strings.Count(strings.Trim(p, "/"), "/") < maxSeg)
 	// recorded finding: a regex variable that admits the empty string (table 23) under RouterJSR311
-	verifKnown("jsr311-nullable-regex-var", router == 1 && tbl == 23)
+	nullable := false
+	for _, f := range h.flat {
+		if n := len(f.toks); n > 0 && f.toks[n-1].kind == tkRegex && vRx("^(?:"+f.toks[n-1].re+")$").MatchString("") {
+			nullable = true
+		}
+	}
+	verifKnown("jsr311-nullable-regex-var", router == 1 && nullable)
 	q.path = p
 	o1 := h.run(c, q)
 	q.path = p + "/"
